@@ -45,8 +45,9 @@ def panic_sites(prog):
     """every construct of the crate that can panic: Assert terminators and calls of panicking std functions"""
     sites = []
     for key, body in prog.bodies.items():
+        live = reachable(body)
         for bi, bb in enumerate(body["blocks"]):
-            if bb["cleanup"]:
+            if bb["cleanup"] or bi not in live:
                 continue
             t = bb["term"]
             if t["k"] == "assert":
@@ -66,6 +67,20 @@ def panic_sites(prog):
     return sites
 
 
+def _block_const(bb, local):
+    """the constant a local holds at the end of a block when its last assignment there is `local = const c`"""
+    val = None
+    for st in bb["stmts"]:
+        if st["k"] == "assign" and st["place"]["l"] == local and not st["place"]["p"]:
+            rv = st["rv"]
+            c = rv.get("op", {}).get("const") if rv.get("k") == "use" else None
+            if c is not None and c.get("kind") in ("bool", "int", "char"):
+                val = int(c["v"]) if c["kind"] != "bool" else int(bool(c["v"]))
+            else:
+                val = None
+    return val
+
+
 def successors(body, bi, skip_cleanup=True):
     t = body["blocks"][bi]["term"]
     k = t["k"]
@@ -73,7 +88,19 @@ def successors(body, bi, skip_cleanup=True):
     if k == "goto":
         out = [t["target"]]
     elif k == "switch":
-        out = [x[1] for x in t["targets"]] + [t["otherwise"]]
+        d = t.get("discr", {})
+        pl = d.get("move") or d.get("copy")
+        cv = None
+        if "const" in d and d["const"].get("kind") in ("bool", "int", "char"):
+            cv = int(d["const"]["v"]) if d["const"]["kind"] != "bool" else int(bool(d["const"]["v"]))
+        elif pl is not None and not pl["p"]:
+            cv = _block_const(body["blocks"][bi], pl["l"])
+        if cv is not None:
+            # a switch on a constant (`debug_assert!(true, ..)`, `if false`): only the matching edge exists
+            hit = [x[1] for x in t["targets"] if int(x[0]) == cv]
+            out = hit[:1] if hit else [t["otherwise"]]
+        else:
+            out = [x[1] for x in t["targets"]] + [t["otherwise"]]
     elif k in ("call", "drop", "assert"):
         if t.get("target") is not None:
             out = [t["target"]]
@@ -199,6 +226,56 @@ UNBOUNDED_SOURCES = ("std::iter::Repeat<", "std::iter::RepeatWith<", "std::ops::
 STD_ITER_PREFIXES = ("std::", "core::", "alloc::")
 
 
+def _generic_args(ty):
+    """top-level generic arguments of `Path<A, B, …>` (None when there are none)"""
+    i = ty.find("<")
+    if i < 0 or not ty.endswith(">"):
+        return None, []
+    head, inner = ty[:i], ty[i + 1:-1]
+    args, depth, cur = [], 0, ""
+    for ch in inner:
+        if ch in "<([":
+            depth += 1
+        elif ch in ">)]":
+            depth -= 1
+        if ch == "," and depth == 0:
+            args.append(cur.strip())
+            cur = ""
+        else:
+            cur += ch
+    if cur.strip():
+        args.append(cur.strip())
+    return head, args
+
+
+def iterator_type_bounded(ty):
+    """does an iterator of this (instantiated std) type end? Sources: slices, vectors, arrays, strings, options and
+    integer ranges with an end do; `Repeat`, `RepeatWith`, `RangeFrom`, `FromFn`, `Successors`, `Cycle` do not. `Zip` ends
+    with its shorter side, `Take` always ends, every other adaptor ends when what it wraps does."""
+    ty = ty.strip()
+    if ty.startswith("&mut "):
+        ty = ty[5:]
+    head, args = _generic_args(ty)
+    if head is None:
+        return not any(u.rstrip("<") in ty for u in UNBOUNDED_SOURCES)
+    if head in ("std::iter::Zip",):
+        return any(iterator_type_bounded(a) for a in args if not a.startswith("'"))
+    if head in ("std::iter::Take",):
+        return True
+    if (head + "<") in UNBOUNDED_SOURCES:
+        return False
+    # adaptors and sources alike: every type argument that is itself an iterator type must end
+    for a in args:
+        if a.startswith("'") or a.startswith("{closure") or a.startswith("for<") or a.startswith("fn("):
+            continue
+        if a.startswith(STD_ITER_PREFIXES) and "::iter::" in a or a.startswith(("std::slice::", "std::vec::", "std::str::", "std::option::", "std::array::", "std::ops::Range")):
+            if not iterator_type_bounded(a):
+                return False
+        elif any(u in a for u in UNBOUNDED_SOURCES):
+            return False
+    return True
+
+
 def loop_is_iterator_bounded(body, comp):
     """a CFG loop is bounded when it contains a call of Iterator::next on a std iterator whose instantiated type
     names no unbounded source (Repeat, RepeatWith, RangeFrom, FromFn, Successors, Cycle): every other std iterator
@@ -216,7 +293,7 @@ def loop_is_iterator_bounded(body, comp):
         self_ty = inst[1:].split(" as std::iter::Iterator>")[0]
         if self_ty.startswith("&mut "):
             self_ty = self_ty[5:]
-        if any(u in self_ty for u in UNBOUNDED_SOURCES):
+        if not iterator_type_bounded(self_ty):
             continue
         if self_ty.startswith("<impl ") or self_ty.startswith("impl ") or GENERIC_ITER.match(self_ty):
             # the iterator is an argument of generic type (`impl IntoIterator`, `I: Iterator`): whether it ends is
